@@ -162,6 +162,10 @@ def origins(body, x, depth=12, transparent=TRANSPARENT, _seen=None):
                 else:
                     nm = rv.get("closure") or ((rv.get("adt") or rv["ak"]) + ("::" + rv["variant"] if rv.get("variant") else ""))
                     res.append(Origin("agg", nm, None, rest, body, extra=(d[1], st)))
+                    if not rest and rv.get("variant") in ("Some", "Ok", "Err") and len(rv["ops"]) == 1:
+                        # value-carrying wrapper: the payload's origins are origins of the wrapped value too
+                        for o in origins(body, rv["ops"][0], depth - 1, transparent, _seen):
+                            res.append(Origin(o.kind, o.name, o.site, o.path, o.body, o.extra))
             elif k in ("binop", "unop", "discr"):
                 res.append(Origin(k, rv.get("op", "discr"), None, rest, body, extra=(d[1], st)))
             else:
